@@ -8,13 +8,16 @@ wake-ups / Close / popStreamFrame with any budget, window and IsNewlyBlocked ans
 CancelWrite / STOP_SENDING / closeForShutdown / SetReliableBoundary / control-frame traffic) and, for the
 composition, over all delivery schedules and read sequences (`Uquic.Spec.StreamPipe.PipeOp`).
 
-Scope of the `_partial` theorems: classic RESET_STREAM semantics (`Classic`: the peer does not support
-RESET_STREAM_AT, or the application never calls SetReliableBoundary). With a reliable boundary the full
-statement is FALSE of the code as it is (`fin_below_final_size_witness`, finding C01-fin-after-reset-at);
-what does hold there — the DATA clause: frame data = written[off, off+len), bytes read are a prefix of
-bytes written — is `sent_data_faithful` / `read_is_prefix`, for every history in which
-SetReliableBoundary is not called on a stream that was already reset (`boundary_after_reset_witness`
-shows that this API misuse does corrupt the stream).
+Side condition of the full-strength theorems (`sent_frames_faithful`, `read_is_prefix`, `read_complete`):
+`NoBoundaryAfterReset` — SetReliableBoundary is never called on a stream that was already reset. Without it
+the statement is false of the code (`boundary_after_reset_witness`: this API misuse sends bytes of a later
+Write at the offset of bytes dropped by the reset). They cover classic RESET_STREAM and RESET_STREAM_AT
+(CancelWrite with a reliable offset) alike; the FIN/EOF clause holds there since the two fixes
+a7958da (no FIN on new data of a stream that is being reset) and the truncation fix (a frame cut to the
+reliable size loses its FIN) — findings C01-fin-after-reset-at / C01-fin-on-truncated-retransmission.
+The `_partial` theorems are the same statements under `Classic` (peer without RESET_STREAM_AT, or no
+SetReliableBoundary at all), where a boundary call after a reset is harmless; `no_byte_forgotten` is
+stated for classic semantics.
 
 The liveness sentence of the property ("transfers complete while the path is not dead for longer than the
 idle timeout") is NOT a theorem: it needs timers and goroutines. `no_byte_forgotten` is its safety core.
@@ -23,6 +26,7 @@ import Uquic.Proofs.SendCompose
 import Uquic.Proofs.SendDgram
 import Uquic.Proofs.SendRefReasm
 import Uquic.Proofs.SendResetAt
+import Uquic.Proofs.SendFin
 
 namespace Uquic.Props.C01
 open Uquic.Model.Stream.Send Uquic.Spec.SendRun Uquic.Spec.StreamPipe Uquic.Proofs.Send
@@ -86,21 +90,35 @@ theorem new_data_contiguous (sid : Nat) (sup : Bool) (ops : List Op) (hc : Class
       (pop (run (init sid sup) ops) mb w nb).1.writeOffset = (run (init sid sup) ops).writeOffset + f.data.length) :=
   pop_contiguous (inv_run sid sup ops hc) mb w nb hmb hf
 
-/-- The full statement is false of the code as it is: with RESET_STREAM_AT, `Close` followed by
-    `CancelWrite` puts the FIN on the last *reliable* frame, which ends below the size written
-    (10 of 15 bytes here): the reader can see a clean end-of-stream on a truncated stream. -/
-def finWitnessOps : List Op :=
-  [.write [0, 1, 2, 3, 4, 5, 6, 7, 8, 9], .boundary, .write [10, 11, 12, 13, 14], .close, .cancel 7,
-   .pop 1200 1048576 false]
+/-- `sent_frames_faithful` at full strength, for all reset semantics incl. RESET_STREAM_AT: after every
+    history in which SetReliableBoundary is never called on an already reset stream, every frame ever
+    returned by `popStreamFrame` carries `written[off, off+len)` and has FIN only if the stream was closed
+    and the frame ends at the final size. -/
+theorem sent_frames_faithful (sid : Nat) (sup : Bool) (ops : List Op)
+    (hc : NoBoundaryAfterReset (init sid sup) ops) :
+    ∀ f ∈ (run (init sid sup) ops).emitted, Faithful (run (init sid sup) ops) f :=
+  let h := rf_run_from (rinv_init sid sup) (finv_init sid sup) ops hc
+  faithful_of h.1 h.2
 
 instance (s : State) (f : Frame) : Decidable (Faithful s f) := by unfold Faithful; exact inferInstance
 instance (s : State) : Decidable (Live s) := by unfold Live; exact inferInstance
 
-theorem fin_below_final_size_witness : ¬ sent_frames_faithful_full := by
-  intro h
-  have := h 4 true finWitnessOps
-  revert this
-  decide
+/-- regressions for the two FIN findings (both false before the fixes): Close then CancelWrite with a
+    reliable boundary below the bytes written — FIN neither on the last reliable frame of new data nor on
+    a FIN frame that is cut to the reliable size when it is lost / was queued -/
+def finRegressionOps1 : List Op :=
+  [.write [0, 1, 2, 3, 4, 5, 6, 7, 8, 9], .boundary, .write [10, 11, 12, 13, 14], .close, .cancel 7,
+   .pop 1200 1048576 false]
+def finRegressionOps2 : List Op :=
+  [.write [0, 1, 2, 3, 4, 5, 6, 7, 8, 9], .boundary, .write [10, 11, 12, 13, 14], .close,
+   .pop 1200 1048576 false, .cancel 7, .lost 0, .pop 1200 1048576 false]
+def finRegressionOps3 : List Op :=
+  [.write [0, 1, 2, 3, 4, 5, 6, 7, 8, 9], .boundary, .write [10, 11, 12, 13, 14], .close,
+   .pop 1200 1048576 false, .lost 0, .cancel 7, .pop 1200 1048576 false]
+example : ∀ f ∈ (run (init 4 true) finRegressionOps1).emitted, Faithful (run (init 4 true) finRegressionOps1) f := by decide
+example : ∀ f ∈ (run (init 4 true) finRegressionOps2).emitted, Faithful (run (init 4 true) finRegressionOps2) f := by decide
+example : ∀ f ∈ (run (init 4 true) finRegressionOps3).emitted, Faithful (run (init 4 true) finRegressionOps3) f := by decide
+example : (run (init 4 true) finRegressionOps2).emitted.length = 2 := by decide
 
 -- non-vacuity: a classic history with a blocked Write, a split retransmission and a FIN
 example : ∃ ops, Classic false ops ∧ (run (init 4 false) ops).emitted.length = 4 ∧ Live (run (init 4 false) ops) :=
@@ -126,6 +144,12 @@ theorem boundary_after_reset_witness :
     ∃ f ∈ (run (init 0 true) boundaryMisuseOps).emitted,
       ¬ (f.data <+: (run (init 0 true) boundaryMisuseOps).written.drop f.offset) := by
   decide
+
+/-- hence the unconditional statement is false: the side condition of `sent_frames_faithful` is needed -/
+theorem sent_frames_faithful_full_witness : ¬ sent_frames_faithful_full := by
+  intro h
+  obtain ⟨f, hf, hnot⟩ := boundary_after_reset_witness
+  exact hnot (h 0 true boundaryMisuseOps f hf).1
 
 -- non-vacuity: a RESET_STREAM_AT history (boundary, more data, CancelWrite, the reliable part still goes out, is lost, is retransmitted)
 example : NoBoundaryAfterReset (init 4 true) [.write [1, 2, 3, 4, 5, 6], .boundary, .write [7, 8, 9], .cancel 5, .pop 11 1000 false, .lost 0, .pop 100 1000 false] ∧
@@ -187,17 +211,55 @@ theorem read_is_prefix_partial (A : Reassembler) (C : ReassemblyContract A) (sid
   have h := pipeInv_run C (pipeInv_init A C sid sup) ops hc
   exact ⟨out_prefix C h.reach h.consistent, h.eof⟩
 
-/-- `read_is_prefix` for ALL reset semantics (RESET_STREAM_AT included): whatever the sender history
-    (without SetReliableBoundary on an already reset stream), the delivery schedule and the reads, the bytes
-    read are a prefix of the bytes written. (The EOF clause is the `_partial` theorem above: under
-    RESET_STREAM_AT it is false of the code, see `fin_below_final_size_witness`.) -/
+/-- `read_is_prefix` at full strength, for all reset semantics incl. RESET_STREAM_AT: whatever the sender
+    history (without SetReliableBoundary on an already reset stream), the delivery schedule and the reads,
+    the bytes read are a prefix of the bytes written, and EOF is reported only after the stream was closed
+    and every byte written has been read. -/
 theorem read_is_prefix (A : Reassembler) (C : ReassemblyContract A) (sid : Nat) (sup : Bool)
     (ops : List PipeOp) (hc : NoBoundaryAfterReset (init sid sup) (sndOps ops)) :
-    A.out (pipeRun (pipeInit A sid sup) ops).r <+: (pipeRun (pipeInit A sid sup) ops).s.written := by
-  have h := pipeInvR_run C (pipeInvR_init A C sid sup) ops hc
-  exact out_prefix C h.reach h.consistent
+    let p := pipeRun (pipeInit A sid sup) ops
+    A.out p.r <+: p.s.written ∧
+    (p.eofSeen = true → p.s.finishedWriting = true ∧ A.out p.r = p.s.written) := by
+  have h := pipeInvF_run C (pipeInvF_init A C sid sup) ops hc
+  exact ⟨out_prefix C h.reach h.consistent, h.eof⟩
 
-/-- `read_complete`: if (after any history) the delivered frames cover every byte written and a FIN
+/-- `read_complete` at full strength (same side condition): if the delivered frames cover every byte
+    written and a FIN frame was delivered, a `read n` returns the next `min n remaining` bytes, one read with
+    a large enough buffer leaves nothing unread, and once nothing is unread the next read reports EOF. -/
+theorem read_complete (A : Reassembler) (C : ReassemblyContract A) (sid : Nat) (sup : Bool)
+    (ops : List PipeOp) (hc : NoBoundaryAfterReset (init sid sup) (sndOps ops)) :
+    let p := pipeRun (pipeInit A sid sup) ops
+    CoveredUpTo (A.segs p.r) p.s.written.length → (∃ x ∈ A.segs p.r, x.fin = true) →
+    ∀ n, 0 < n →
+      (A.read p.r n).2.1 = (p.s.written.drop (A.out p.r).length).take (min n (p.s.written.length - (A.out p.r).length)) ∧
+      (p.s.written.length - (A.out p.r).length ≤ n → A.out (A.read p.r n).1 = p.s.written) ∧
+      (A.out p.r = p.s.written → (A.read p.r n).2.2 = true) := by
+  intro p hcov hfin n hn
+  have h : PipeInvF p := pipeInvF_run C (pipeInvF_init A C sid sup) ops hc
+  have hpre : A.out p.r <+: p.s.written := out_prefix C h.reach h.consistent
+  have hle := hpre.length_le
+  have h' : PipeInvF (pipeStep p (.read n)) := pipeInvF_step C h (.read n) (fun hh => by cases hh)
+  have hpre' : A.out (A.read p.r n).1 <+: p.s.written := out_prefix C h'.reach h'.consistent
+  have hout' := C.out_read p.r n h.reach
+  have hprog := C.progress p.r n p.s.written p.s.written.length h.reach h.consistent hcov hle
+  have hrl := C.read_len p.r n h.reach
+  have hle' := hpre'.length_le
+  rw [hout', List.length_append] at hle'
+  have hlen : (A.read p.r n).2.1.length = min n (p.s.written.length - (A.out p.r).length) := by omega
+  have hbytes : (A.read p.r n).2.1 = (p.s.written.drop (A.out p.r).length).take (A.read p.r n).2.1.length := by
+    obtain ⟨t, ht⟩ := hpre'
+    rw [hout'] at ht
+    have : p.s.written.drop (A.out p.r).length = (A.read p.r n).2.1 ++ t := by
+      rw [← ht, List.append_assoc, List.drop_left]
+    rw [this, List.take_left]
+  refine ⟨by rw [← hlen]; exact hbytes, fun hbig => ?_, fun hall => ?_⟩
+  · exact hpre'.eq_of_length (by rw [hout', List.length_append]; omega)
+  · obtain ⟨x, hx, hxf⟩ := hfin
+    obtain ⟨f, hf, rfl⟩ := h.segs_emitted x hx
+    have := h.finv.fem f hf hxf
+    exact C.eof_complete p.r n p.s.written h.reach h.consistent hn (by rw [hall]) ⟨segOf f, hx, hxf, by rw [hall]; exact this.2⟩
+
+/-- `read_complete` under `Classic`: if (after any history) the delivered frames cover every byte written and a FIN
     frame was delivered, then reading obtains every byte: a `read n` returns the next
     `min n remaining` bytes of the stream, one read with a large enough buffer leaves nothing unread,
     and once nothing is unread the next read reports EOF. -/
